@@ -193,6 +193,7 @@ theorem std_aggPermInvariant (kinds : RelId → Std.LatKind) : AggPermInvariant 
   | min => show Std.evalAx .min l = Std.evalAx .min l'; simp only [Std.evalAx]; rw [Agg.aggMin_perm hmap]
   | max => show Std.evalAx .max l = Std.evalAx .max l'; simp only [Std.evalAx]; rw [Agg.aggMax_perm hmap]
   | not => show Std.evalAx .not l = Std.evalAx .not l'; simp [Std.evalAx, h.length_eq]
+  | minmax => show Std.evalAx .minmax l = Std.evalAx .minmax l'; simp only [Std.evalAx]; rw [Agg.aggMin_perm hmap, Agg.aggMax_perm hmap]
   | argmin =>
     show Std.evalAx .argmin l = Std.evalAx .argmin l'
     simp only [Std.evalAx]
